@@ -30,6 +30,7 @@ EVIDENCE_DIR = os.path.join(VERIF, "evidence")
 REPLAY_DIR = os.path.join(EVIDENCE_DIR, "replays")
 KNOWN = os.path.join(VERIF, "known_findings.json")
 SPLIT_AFTER = 24
+GRACE_S = 180  # a single solver call may overrun the budget by its own timeout; beyond this a task is considered lost
 
 _LOADERS = {}
 
@@ -259,6 +260,12 @@ def load_known():
 
 
 def main(argv=None):
+    try:  # kill -USR1 <pid> prints every thread's Python stack (parent and workers): diagnosing a stuck run
+        import faulthandler
+        import signal
+        faulthandler.register(signal.SIGUSR1, all_threads=True)
+    except Exception:
+        pass
     ap = argparse.ArgumentParser()
     ap.add_argument("property")
     ap.add_argument("--tier", default=os.environ.get("VERIF_TIER", "quick"), choices=["quick", "thorough"])
@@ -306,7 +313,14 @@ def main(argv=None):
     if not patches:
         if len(cfgs) > 8 and args.jobs > 1:
             with mp.get_context("fork").Pool(max(1, args.jobs)) as vpool:
-                for n1, e1, rep1 in vpool.imap(_validate_task, [(prop, c) for c in cfgs], chunksize=1):
+                it = vpool.imap(_validate_task, [(prop, c) for c in cfgs], chunksize=1)
+                for _ in cfgs:
+                    try:
+                        n1, e1, rep1 = it.next(timeout=max(60.0, deadline - time.time()))
+                    except mp.TimeoutError:
+                        err = err or "model validation did not finish within the time budget (worker lost or stuck)"
+                        vpool.terminate()
+                        break
                     nvalid += n1
                     err = err or e1
                     fixture_violations.extend(rep1)
@@ -345,6 +359,12 @@ def main(argv=None):
             outstanding = still
             if not progressed:
                 time.sleep(0.01)
+            # a worker that died (e.g. killed for memory) loses its task and the pool never reports it: never wait for ever
+            if outstanding and time.time() > deadline + GRACE_S:
+                inconclusive.append("%d task(s) not finished %d s after the time budget (worker lost or stuck): no verdict for them"
+                                    % (len(outstanding) + len(queue), GRACE_S))
+                pool.terminate()
+                break
 
     # ---- extra sub-checks (direct solver lemmas, cross-checks)
     extra = {}
